@@ -161,6 +161,11 @@ def run(ctx: Ctx) -> None:
             r = random.Random(1234 + k)
             for _ in range(40):
                 run_case(ctx, gen.compose_case(r, w))
+    # E: the elimination families of C04 dressed as compositions (producer = context, consumer assumes the terms)
+    for _ in range(ctx.n(2500, 40000)):
+        if ctx.out_of_time():
+            break
+        run_case(ctx, gen.compose_from_elim(ctx.rng))
     # G: generated
     for _ in range(ctx.n(9000, 150000)):
         if ctx.out_of_time():
